@@ -317,8 +317,13 @@ def run_case(case):
                 obs["numpy_int_coords"] += 1
             if (sc["key"], coords) in model:
                 obs["rewrites"] += 1
+            arr_before = arr.tobytes()
             try:
                 pio.write_chunk(arr, sc["key"], call_coords)
+                if arr.tobytes() != arr_before:
+                    v.append({"kind": "write_chunk-modified-the-array-handed-in",
+                              "detail": f"{ctx}: {sc['key']} {coords} layout={layout}"})
+                    break
             except Exception as exc:  # noqa: BLE001
                 v.append({"kind": "valid-write-raised",
                           "detail": f"{ctx}: write {sc['key']} {coords} layout={layout}: "
